@@ -459,7 +459,7 @@ func (obj *Package) Define(creator func(args List) Object, doc *FuncDoc, aux ...
 	if obj.funcs == nil {
 		obj.funcs = map[string]*FuncInfo{}
 	}
-	if _, has := obj.funcs[name]; has {
+	if xf := obj.funcs[name]; xf != nil && !obj.forwardCalls(name, creator) {
 		Warn("redefining %s", printer.caseName(name))
 	}
 	obj.funcs[name] = &fi
@@ -478,6 +478,25 @@ func (obj *Package) Define(creator func(args List) Object, doc *FuncDoc, aux ...
 		h.fun(obj, fmt.Sprintf("%s:%s", obj.Name, name))
 	}
 	return &fi
+}
+
+// forwardCalls makes calls compiled before the named function was defined,
+// which CompileList bound to a placeholder lambda, call the function created
+// by creator instead. It returns true if the name was only a placeholder.
+func (obj *Package) forwardCalls(name string, creator func(args List) Object) bool {
+	xlam := obj.lambdas[name]
+	if xlam == nil || len(xlam.Forms) != 1 {
+		return false
+	}
+	switch tf := xlam.Forms[0].(type) {
+	case Undefined:
+		xlam.Doc = &FuncDoc{Name: name, Args: []*DocArg{{Name: AmpRest}, {Name: "args"}}}
+		xlam.Forms = List{&forward{Undefined: tf, create: creator}}
+		return true
+	case *forward:
+		tf.create = creator
+	}
+	return false
 }
 
 // Export a function.
